@@ -820,6 +820,21 @@ pub fn run_c18(ctx: &mut Ctx) {
     // a 3-frame APNG whose first frame has an undefined filter-type byte in its fifth row (D19: found by the thorough tier)
     // (model_domain = false: the frame count of the reference decoder stops at the damaged frame; later frames do exist)
     files.push(corpus::TestFile { bytes: unhex(BAD_FILTER_APNG).unwrap_or_default(), source: "fail-mid-frame".into(), model_domain: false });
+    // animations that hold MORE frames than their acTL declares (0 or 1 declared; default image inside / outside the animation):
+    // the frames behind the declared count do not exist for the caller - a call behind the last declared frame must be refused,
+    // not answered with the surplus frame's pixels (how many frames there are is decided once, in read_info)
+    for k in 0..ctx.n(8, 24) {
+        let mut r = rng.fork(9900 + k as u64);
+        let mut a = random_anim(&mut r, 6, 3);
+        a.interlace = k % 3 == 0;
+        if k % 2 == 0 { a.default_image = None; }
+        let (mut cs, _) = anim_chunks(&a, &mut r);
+        let declared = if k % 4 < 2 { 0u32 } else { (a.frames.len() as u32).saturating_sub(1) };
+        if let Some(c) = cs.iter_mut().find(|c| &c.ty == b"acTL") {
+            c.data[..4].copy_from_slice(&declared.to_be_bytes());
+        }
+        files.push(corpus::TestFile { bytes: serialize(&cs), source: "more-frames-than-declared".into(), model_domain: true });
+    }
     let mut cfgs: Vec<Config> = vec![Config::default(); files.len()];
     // frames refused by Limits: a narrow first frame, wider later frames, a limit that admits the first frame only.  The
     // refusal (LimitsExceeded from next_frame / next_frame_info) is a fatal event: no row or frame of the refused frame
